@@ -7,7 +7,7 @@ sys.path.insert(0, str(Path(__file__).resolve().parent))
 from manifest_table import CHECKS, NOT_APPLICABLE  # noqa: E402
 
 V = Path(__file__).resolve().parent.parent
-AREAS = ["sat", "lp", "cp", "dlx", "flow", "path", "graph", "pack", "sched", "search", "ds"]
+AREAS = ["sat", "lp", "cp", "dlx", "flow", "path", "graph", "pack", "sched", "search", "ds", "assign", "backend", "mst", "net", "cut"]
 m = {
     "version": 1,
     "setup_cmd": "/venv/bin/python harness/kernels.py && cd lean && lake build Solvor " + " ".join("drv_" + a for a in AREAS),
